@@ -10,6 +10,7 @@ import (
 	"errors"
 	"io"
 
+	"mellium.im/xmlstream"
 	"mellium.im/xmpp/stream"
 )
 
@@ -59,7 +60,13 @@ func (r *reader) Token() (xml.Token, error) {
 		switch t.Name.Local {
 		case "error":
 			e := stream.Error{}
-			err = xml.NewTokenDecoder(r.r).DecodeElement(&e, &t)
+			// Let the decoder see the start token itself: DecodeElement on a new
+			// token decoder that has not read the start element panics for types
+			// that implement xml.Unmarshaler.
+			err = xml.NewTokenDecoder(xmlstream.MultiReader(
+				xmlstream.Token(t),
+				xmlstream.InnerElement(r.r),
+			)).Decode(&e)
 			if err != nil {
 				return nil, err
 			}
